@@ -17,8 +17,10 @@ EXTENDS EventFilter
 CONSTANTS NSub, Cad, Offs, SlotKinds, ChanKinds, Tops, Recs, PropFlags
 
 VARIABLES T, o, R,
-          ref      \* derived: the reference listing of (T, o, R) forward and reversed - computed once per state
-vars == <<T, o, R, ref>>
+          ref,     \* derived: the reference listing of (T, o, R) forward and reversed - computed once per state
+          last     \* history: name of the step just taken (excluded from the state by VIEW view)
+vars == <<T, o, R, ref, last>>
+view == <<T, o, R, ref>>
 
 Slots == (1..NSub) \X Offs
 SlotSeq == SetToSortSeq(Slots, LAMBDA a, b : a[1] < b[1] \/ (a[1] = b[1] /\ a[2] < b[2]))
@@ -51,7 +53,7 @@ GoodOpt(x) == /\ (~x.hs => x.s = 0) /\ (~x.he => x.e = 0)        \* canonical wh
 Base == [drf |-> TRUE, dmd |-> TRUE, dp |-> 2, mp |-> 2, rec |-> FALSE, rev |-> FALSE, hs |-> FALSE, s |-> 0, he |-> FALSE, e |-> 0]
 Both(t, x, r) == [fwd |-> RefList(t, [x EXCEPT !.rev = FALSE], r, FALSE), bwd |-> RefList(t, [x EXCEPT !.rev = TRUE], r, FALSE)]
 Init == /\ T \in Trees /\ R \in Roots /\ o = [Base EXCEPT !.rec = (FALSE \notin Recs)]
-        /\ ref = Both(T, o, R)
+        /\ ref = Both(T, o, R) /\ last = "Init"
 
 NoWindow(x) == ~x.hs /\ ~x.he
 SetFlags     == /\ NoWindow(o) /\ o' \in {x \in Opts : GoodOpt(x) /\ NoWindow(x)} /\ UNCHANGED <<T, R>>
@@ -63,7 +65,13 @@ StartEarlier == o.hs /\ o.s - 1 \in Times /\ o' = [o EXCEPT !.s = @ - 1] /\ UNCH
 DropStart    == o.hs /\ o' = [o EXCEPT !.hs = FALSE, !.s = 0] /\ UNCHANGED <<T, R>>
 EndLater     == o.he /\ o.e + 1 \in Times /\ o' = [o EXCEPT !.e = @ + 1] /\ UNCHANGED <<T, R>>
 DropEnd      == o.he /\ o' = [o EXCEPT !.he = FALSE, !.e = 0] /\ UNCHANGED <<T, R>>
-Step == SetFlags \/ SetStart \/ SetEnd \/ StartEarlier \/ DropStart \/ EndLater \/ DropEnd
+Step == \/ SetFlags /\ last' = "SetFlags"
+        \/ SetStart /\ last' = "SetStart"
+        \/ SetEnd /\ last' = "SetEnd"
+        \/ StartEarlier /\ last' = "StartEarlier"
+        \/ DropStart /\ last' = "DropStart"
+        \/ EndLater /\ last' = "EndLater"
+        \/ DropEnd /\ last' = "DropEnd"
 Next == Step /\ ref' = Both(T', o', R')
 Spec == Init /\ [][Next]_vars
 
@@ -126,6 +134,16 @@ WindowMonotone == [][Wider(o, o') => RSet(ref.fwd.seq) \subseteq RSet(ref'.fwd.s
 (***************************************************************************)
 (* Witnesses - each MUST be violated (vacuity guards)                      *)
 (***************************************************************************)
+\* every step of the model is taken (TLC's -coverage does not terminate on this module, so reachability of the
+\* actions is shown by witnesses over the history variable; run with -continue)
+Both2 == o.drf /\ o.dmd
+W_NeverSetFlags     == ~(last = "SetFlags" /\ ~o.drf /\ o.dmd)
+W_NeverSetStart     == ~(last = "SetStart" /\ Both2 /\ o.hs /\ o.s = 0 /\ ~o.he)
+W_NeverSetEnd       == ~(last = "SetEnd" /\ Both2 /\ o.he /\ o.e = 0 /\ ~o.hs)
+W_NeverStartEarlier == ~(last = "StartEarlier" /\ Both2 /\ o.hs /\ o.s = -1 /\ ~o.he)
+W_NeverDropStart    == ~(last = "DropStart" /\ Both2 /\ ~o.hs /\ o.he /\ o.e = 0)
+W_NeverEndLater     == ~(last = "EndLater" /\ Both2 /\ o.he /\ o.e = NSub * Cad /\ ~o.hs)
+W_NeverDropEnd      == ~(last = "DropEnd" /\ Both2 /\ ~o.he /\ o.hs /\ o.s = 0)
 \* the universe reaches forward fill from an earlier subdirectory across an empty one
 W_NoLookBackAcrossEmptySubdir ==
   ~(\E i \in Listed : /\ IsData(T, i) /\ ~InWin(LF(T, i).t, o)
